@@ -6,6 +6,6 @@ for p in $(python3 -c "import json; print(' '.join(c['property_id'] for c in jso
   /usr/bin/time -f "$p %es" ./check $p --tier $tier 2>&1 | grep -v "^  \|^KNOWN-FINDING" | tail -2
 done
 # specification growth beyond the listed properties (harness/props/ext_*.py; not in MANIFEST.checks)
-for p in EXT_LOGGING EXT_SAMPLECFG EXT_FIXUP; do
+for p in EXT_ENDPOINT EXT_RESTCALL EXT_LOGGING EXT_SAMPLECFG EXT_FIXUP; do
   /usr/bin/time -f "$p %es" ./check $p --tier $tier 2>&1 | grep -v "^  \|^KNOWN-FINDING" | tail -2
 done
